@@ -87,6 +87,12 @@ func applyStringConstraints(constraints *validate.FieldRules, schema *base.Schem
 		maxLen := int64(stringConstraints.GetMaxLen()) // #nosec G115
 		schema.MaxLength = &maxLen
 	}
+	// Exact length
+	if stringConstraints.HasLen() {
+		exactLen := int64(stringConstraints.GetLen()) // #nosec G115
+		schema.MinLength = &exactLen
+		schema.MaxLength = &exactLen
+	}
 
 	// Pattern (regex)
 	if stringConstraints.HasPattern() {
